@@ -643,6 +643,16 @@ pub fn replay_line(lib: &Lib, world: &World, line: &Value, opts: &ReplayOpts) ->
     }
     check_state(lib, &m, &line["state"], None, &mut f);
     if !f.is_empty() {
+        // the real graph is not in the state the spec describes, so the spec's expectations do
+        // not apply; what holds in every state still does: encode never fails validation,
+        // never panics and never returns invalid bytes (C01)
+        let any = json!({"encode": ["ok", "GraphContainsCycle", "ImplicitImportConflict", "ImportTypeMergeConflict"]});
+        let no_decode = ReplayOpts {
+            encode_every: 1,
+            decode: false,
+            hash_repeats: 0,
+        };
+        check_encode(lib, &m, &any, &no_decode, &mut f, &mut stats);
         return (f, stats);
     }
     let before = m.world.graph.verif_snapshot();
@@ -685,6 +695,13 @@ pub fn replay_line(lib: &Lib, world: &World, line: &Value, opts: &ReplayOpts) ->
                 what: inv.join("; "),
                 op: Some(op.to_json()),
             });
+            let any = json!({"encode": ["ok", "GraphContainsCycle", "ImplicitImportConflict", "ImportTypeMergeConflict"]});
+            let no_decode = ReplayOpts {
+                encode_every: 1,
+                decode: false,
+                hash_repeats: 0,
+            };
+            check_encode(lib, &m2, &any, &no_decode, &mut f, &mut stats);
         }
         match m2.project(lib) {
             Err(e) => f.push(Finding {
@@ -763,6 +780,52 @@ pub fn replay_line(lib: &Lib, world: &World, line: &Value, opts: &ReplayOpts) ->
     }
     // encode in the state itself
     check_encode(lib, &m, &line["state"], opts, &mut f, &mut stats);
+    // outcomes that depend on hash iteration order: repeat on fresh worlds (fresh hash keys)
+    if line["state"]["hashsens"] == true {
+        for _ in 0..opts.hash_repeats {
+            let w = match World::new(lib) {
+                Ok(w) => w,
+                Err(_) => break,
+            };
+            let mut m = Machine::new(&w);
+            let mut ok = true;
+            for o in line["hist"].as_array().unwrap() {
+                if m.apply(&Op::from_json(o)).tag != "ok" {
+                    ok = false;
+                    break;
+                }
+            }
+            if !ok {
+                continue;
+            }
+            for c in line["ok"].as_array().unwrap() {
+                let op = Op::from_json(&c["o"]);
+                if op.op != "remove" && op.op != "unregister" {
+                    continue;
+                }
+                let mut m2 = m.clone();
+                let a = m2.apply(&op);
+                stats.ops_tried += 1;
+                if a.tag != "ok" {
+                    f.push(Finding {
+                        class: if a.tag == "panic" { "panic" } else { "result" },
+                        what: format!("(fresh hash keys) expected ok, got {} ({})", a.tag, a.detail),
+                        op: Some(op.to_json()),
+                    });
+                    return (f, stats);
+                }
+                let inv = m2.world.graph.verif_invariants();
+                if !inv.is_empty() {
+                    f.push(Finding {
+                        class: "invariant",
+                        what: inv.join("; "),
+                        op: Some(op.to_json()),
+                    });
+                    return (f, stats);
+                }
+            }
+        }
+    }
     (f, stats)
 }
 
@@ -777,6 +840,8 @@ pub struct ReplayOpts {
     /// encode every n-th state only (1 = all)
     pub encode_every: usize,
     pub decode: bool,
+    /// repetitions on fresh worlds for hash-order sensitive states
+    pub hash_repeats: usize,
 }
 
 pub fn check_state(lib: &Lib, m: &Machine, want: &Value, op: Option<&Op>, f: &mut Vec<Finding>) {
